@@ -28,6 +28,17 @@ fn main() {
     let mut inp = String::new();
     std::io::stdin().read_to_string(&mut inp).unwrap();
     let case: serde_json::Value = serde_json::from_str(&inp).expect("case json");
+    if case["kind"].as_str() == Some("error_display") {
+        // C15: Display of graphql_client::Error
+        let path: Option<Vec<graphql_client::PathFragment>> = case["path"].as_array().map(|a| a.iter().map(|v| match v.as_i64() {
+            Some(i) => graphql_client::PathFragment::Index(i as i32),
+            None => graphql_client::PathFragment::Key(v.as_str().unwrap_or("").to_string()),
+        }).collect());
+        let locations = case["locations"].as_array().map(|a| a.iter().map(|l| graphql_client::Location { line: l[0].as_i64().unwrap_or(0) as i32, column: l[1].as_i64().unwrap_or(0) as i32 }).collect());
+        let e = graphql_client::Error { message: case["message"].as_str().unwrap_or("").to_string(), locations, path, extensions: None };
+        println!("{}", serde_json::json!({"ok": true, "display": format!("{}", e)}));
+        return;
+    }
     let dir = case["workdir"].as_str().unwrap_or("/verif/.work/replay-files").to_string();
     std::fs::create_dir_all(&dir).unwrap();
     // a history of calls (C08) or a single call
